@@ -195,10 +195,7 @@ func runHandler(d desc) hlib.Case {
 	c.Coq = hlib.App("CHandler", hlib.N(uint64(d.Kind)), hlib.Z(int64(d.BL)), hlib.Z(int64(d.OL)), bsList(ae), bs([]byte(d.CT)), bs([]byte(d.PreCE)),
 		bsList(varyIn), hlib.Bool(d.Streamed), hlib.List(chunks), bs(ce), bsList(vary), hlib.Bool(oErr), hlib.Bool(decoded))
 	// (the former vary-substring finding, repaired in f11ef83: `Vary: X-Accept-Encoding` inputs stay in the generator)
-	// known finding class: a streamed body of more than one zstd block coded with zstd
-	if d.Streamed && string(ce) == "zstd" && d.PreCE == "" && total > zstdBlock {
-		c.Key = "zstd-stackless-async-write"
-	}
+	// (streamed zstd bodies of several encoder blocks reproduced zstd-stackless-async-write, repaired in b444fe3)
 	c.Sig = fmt.Sprintf("handler:k%d:ce=%s:pre=%s:s%v:sz%s:v%d:ct%v", d.Kind, ce, d.PreCE, d.Streamed, sizeClass(total), len(vary), d.CT != "")
 	if total > 1<<16 {
 		sum := sha256.Sum256(body)
@@ -252,9 +249,6 @@ func runCodec(d desc) hlib.Case {
 	c := hlib.Case{Kind: "codec-" + d.Coding, Size: d.SrcLen}
 	c.Coq = hlib.App("CCodec", hlib.N(uint64(codingIndex(d.Coding))), hlib.Z(int64(d.Level)), hlib.N(uint64(d.Path)), hlib.Z(int64(d.DstLen)), hlib.Z(int64(d.SrcLen)),
 		hlib.Bool(err != nil), hlib.Bool(prefix), hlib.Bool(decoded))
-	if d.Coding == "zstd" && d.Path == 2 && d.SrcLen > zstdBlock {
-		c.Key = "zstd-stackless-async-write"
-	}
 	c.Sig = fmt.Sprintf("codec:%s:l%d:p%d:%s:d%v", d.Coding, d.Level, d.Path, sizeClass(d.SrcLen), d.DstLen > 0)
 	return c
 }
